@@ -259,14 +259,14 @@ fn array_chunks(cfg: &Cfg, maxlen: usize) -> Report {
 }
 
 pub fn run(cfg: &Cfg) -> (&'static str, Report, String, String) {
-    let maxlen = cfg.by(3, 7, 10);
+    let maxlen = cfg.by(2, 7, 10);
     let mut rep = run_elem::<u16>(cfg, "u16", &|k| 100 + k as u16, maxlen);
     rep.merge(run_elem::<()>(cfg, "()", &|_| (), cfg.by(2, 5, 7)));
     rep.merge(run_elem::<String>(cfg, "String", &|k| format!("s{}", k), cfg.by(2, 5, 7)));
     // all-equal elements: sub-slices are only distinguishable by address
     rep.merge(run_elem::<u8>(cfg, "u8(all-equal)", &|_| 7u8, cfg.by(2, 5, 7)));
     rep.merge(copied(cfg, maxlen));
-    rep.merge(array_chunks(cfg, cfg.by(4, 9, 12)));
+    rep.merge(array_chunks(cfg, cfg.by(3, 9, 12)));
     (
         "C08",
         rep,
